@@ -273,7 +273,9 @@ def tab_cli(run):
         if not ok:
             bad.append("parameters in code %s, documented %s" % (sorted(params), sorted(doc_params)))
         for pn, dv in doc_params.items():
-            if pn in params and str(params[pn][2]) != dv:
+            if pn in params and params[pn][2] is None:
+                bad.append("default of `%s` is not a constant in the code (it depends on other input), the usage text documents the fixed default %s" % (pn, dv))
+            elif pn in params and str(params[pn][2]) != dv:
                 bad.append("default of `%s` is %s in code, %s in the usage text" % (pn, params[pn][2], dv))
         run.check(not bad, R, key, loc,
                   "`%s` -> %s with parameters %s as documented" % (name, variant, {k: v[2] for k, v in params.items()}),
@@ -305,7 +307,7 @@ def tab_cli(run):
                       "`%s,%s:` fills field `%s`, expected `%s`" % (name, fv[1], fname, wantf))
             # default must pass its own validator
             v = fv[3]
-            okd = (v[0] == "set" and fv[2] in v[1]) or (v[0] == "gt" and fv[2] > v[1]) or v[0] not in ("set", "gt")
+            okd = fv[2] is not None and ((v[0] == "set" and fv[2] in v[1]) or (v[0] == "gt" and fv[2] > v[1]) or v[0] not in ("set", "gt"))
             run.check(okd, R, "%s|default-valid|%s.%s" % (R, name, fv[1]), "%s:%d" % (pof.file, line),
                       "default %s of `%s,%s` satisfies its validator" % (fv[2], name, fv[1]),
                       "default %s of `%s,%s` is rejected by its own validator %s" % (fv[2], name, fv[1], v))
@@ -391,6 +393,12 @@ def tab_cli(run):
                 elif how == "control":
                     if pc.dominates(rb, bi) and rb != bi:
                         good = True
+                elif how == "value-if-present":
+                    # the store may only happen when the option was given in THIS group (a later group without it must not reset it)
+                    if (value_depends_on(pc, _rv_first_operand(rv), dl) or pc.dominates(rb, bi)) and _behind_presence(pc, dl, bi):
+                        good = True
+                    else:
+                        why = "`%s` is assigned on a path where option `%s` is absent in the group (or not from its value): a later group without the option would reset the setting" % (".".join(field), keyname)
         run.check(good, R, key, pc.loc(),
                   "option `%s` drives `%s` (%s)" % (keyname, ".".join(field), how), "option `%s`: %s" % (keyname, why))
     # 3b. values given to callee parsers
@@ -415,6 +423,40 @@ def tab_cli(run):
     tab_cli_derive(run)
     # 5. print xor write per group
     tab_cli_groups(run)
+
+
+def _behind_presence(f, opt_local, block):
+    """is `block` behind the Some / true edge of a test of the Option<String> / bool held in opt_local?"""
+    for b in f.dominators().get(block, ()):
+        t = f.blocks[b]["term"]
+        if t["k"] != "switch" or b == block:
+            continue
+        dl = op_local(t["discr"])
+        if dl is None:
+            continue
+        o = f.origin_local(dl)
+        src = None
+        if o[0] == "discr":
+            src = peel(o[1])
+            if src[0] == "multi":
+                src_l = src[1]
+            elif src[0] == "call" and not src[1]["dest"]["p"]:
+                src_l = src[1]["dest"]["l"]
+            else:
+                continue
+            if src_l != opt_local and f.copy_root(src_l) != opt_local:
+                continue
+            vm = o[2].get("variants") or {}
+            listed = {v: tg for v, tg in t["targets"]}
+            for v, name in vm.items():
+                if name == "Some":
+                    tg = listed.get(v, t["otherwise"])
+                    if f.edge_dominates(b, tg, block):
+                        return True
+        elif f.copy_root(dl) == opt_local and f.local_ty(opt_local) == "bool":
+            if f.edge_dominates(b, t["otherwise"], block):
+                return True
+    return False
 
 
 def _same_field(op, place):
@@ -1074,3 +1116,59 @@ def tab_fmt(run):
         run.check(ok, R, "%s|pow2|%s.base" % (R, fmtname), "tables/cli.json",
                   "every accepted base of `%s` is a power of two >= 2 (bits per digit = log2 base)" % fmtname,
                   "`%s` accepts a base that is not a power of two: digits are extracted as bit groups" % fmtname)
+
+
+def fmt_profile(run):
+    """numeric radix/width profile of the binary-data formatters; end-of-data tests compare plain positions"""
+    R = "TAB-fmt"
+    prog = run.prog
+    spec = run.table("formats")
+    from collections import Counter, defaultdict
+    prof = defaultdict(Counter)
+    for f in prog.real_fns():
+        root = f.raw.get("root") or f.id
+        if "bitvec_format" not in root:
+            continue
+        for bi, t in f.calls():
+            m = re.search(r"Argument::<'_>::new_(\w+)$", t.get("callee") or "")
+            if m:
+                ty = (t.get("gargs") or ["?"])[-1]
+                if re.search(r"^&?(u8|u16|u32|u64|usize|i32|i64|isize|util::bigint::BigInt)$", ty):
+                    prof[root.rsplit("::", 1)[-1]]["%s<%s>" % (m.group(1), ty)] += 1
+    for name, want in sorted(spec["numeric_profile"].items()):
+        if name.startswith("_"):
+            continue
+        got = dict(prof.get(name, {}))
+        g = prog.find("BitVec>::" + name)
+        run.check(got == want, R, "%s|numeric-profile|%s" % (R, name), g[0].loc() if g else "-",
+                  "%s prints its numbers as %s" % (name, got),
+                  "%s prints its numbers as %s; the format's rules (audited) require %s — a field printed in another radix or from a wider type no longer decodes" % (name, got, want))
+    # end-of-data tests
+    audited = set(spec.get("audited_end_tests", []))
+    n = 0
+    for f in prog.real_fns():
+        root = f.raw.get("root") or f.id
+        if "bitvec_format" not in root:
+            continue
+        for bi, si, st in f.stmts():
+            if st["k"] != "assign" or st["rv"]["k"] != "binop" or st["rv"]["op"] not in ("Lt", "Le", "Gt", "Ge", "Eq", "Ne"):
+                continue
+            sides = [st["rv"]["l"], st["rv"]["r"]]
+            org = [peel(f.origin_op(x)) if op_place(x) is not None else ("const",) for x in sides]
+            islen = [o[0] == "call" and (o[1].get("resolved") or "").endswith("bitvec::BitVec::len") for o in org]
+            if not any(islen):
+                continue
+            n += 1
+            other = org[1] if islen[0] else org[0]
+            raw_other = sides[1] if islen[0] else sides[0]
+            computed = other[0] == "binop" or (other[0] == "place" and other[1][0] == "binop")
+            ol = op_local(raw_other)
+            if ol is not None and f.local_name(f.copy_root(ol)):
+                computed = False   # a named position variable, however it was computed
+            key = "%s|end-test|%s" % (R, f.id)
+            if computed and key not in audited:
+                run.violation(R, key, f.loc(st["span"]),
+                              "%s compares the output length with a freshly computed position (%s): end-of-data tests in the formatters compare a plain bit position with len(), bits beyond the end read as zero; a shifted bound drops or invents the last partial granule" % (f.id, describe_origin(f, other)))
+            else:
+                run.ok(R, key + "|%d" % st["span"]["line"] if False else key, f.loc(st["span"]), "%s: end-of-data test compares a plain position with len()" % f.id)
+    run.floor(R, "end-of-data tests in formatters", n, 8)
